@@ -24,11 +24,13 @@ CHECKS = {
         level="model_checking",
         engine="S+H",
         technique="explicit-state BFS over event histories of the real breaker vs. a reference automaton + exhaustive preemption-bounded schedule exploration of concurrent Execute calls",
-        text="Every history of {success, failure, panic, three clock steps} up to the stated depth is replayed on the real CircuitBreaker (library level, 27 configurations) and through the real LoadBalancer.ServeHTTP with scripted backends (system level, all five strategies), and each step's admission, rejection status, backend contact and state is compared with a reference automaton of the property; all interleavings of 2-3 concurrent Execute calls at the open->half-open boundary are enumerated up to the preemption bound and the number of concurrently admitted trials is checked against max_requests. The concurrent scenarios are explored a second time in a -race build, where the happens-before detector judges every explored schedule (scheduler hand-offs hidden from it).",
+        text="Every history of {success, failure, panic, three clock steps} up to the stated depth is replayed on the real CircuitBreaker (library level, 27 configurations) and through the real LoadBalancer.ServeHTTP with scripted backends (system level, all five strategies), and each step's admission, rejection status, backend contact and state is compared with a reference automaton of the property; all interleavings of 2-3 concurrent Execute calls at the open->half-open boundary are enumerated up to the preemption bound and the number of concurrently admitted trials is checked against max_requests. Linearizability part: every control state the sequential search reaches within the stated depth (one shortest history per distinct fingerprint) is the start of 2-3 overlapping Execute calls with fixed outcomes (success, failure, panic), explored under every schedule up to the preemption bound; the answers each call got, the state afterwards and the answers to a fixed follow-up script must all be explained by one interleaving of the calls' admission and completion steps on the reference automaton. The concurrent scenarios are explored a second time in a -race build, where the happens-before detector judges every explored schedule (scheduler hand-offs hidden from it).",
         note="Virtual clock moves in steps that never land exactly on a deadline; instants older than the largest configured duration are merged in the state fingerprint (argument in the harness); backends are RoundTripper stubs under the real httputil.ReverseProxy; interleavings are explored at synchronisation operations only (sound if the code between them is race-free, which C12 checks).",
         jobs=[
             dict(name="c07s", part="S", pkg=CB, run="TestVerifC07S", mode="instr", shards=dict(quick=4, thorough=16)),
             dict(name="c07race", part="S-Race", pkg=CB, run="TestVerifC07S", mode="instr", race=True, shards=dict(quick=8, thorough=16)),
+            dict(name="c07lin", part="Lin", pkg=CB, run="TestVerifC07Lin", mode="instr", shards=dict(quick=16, thorough=16), timeout=dict(quick=600, thorough=3000)),
+            dict(name="c07linrace", part="Lin-Race", pkg=CB, run="TestVerifC07Lin", mode="instr", race=True, shards=dict(quick=16, thorough=16), timeout=dict(quick=600, thorough=3000)),
             dict(name="c07sys", part="Sys", pkg=LB, run="TestVerifC07Sys", mode="instr", shards=dict(quick=13, thorough=16)),
             dict(name="c07h", part="H", pkg=CB, run="TestVerifC07H", mode="instr", shards=dict(quick=9, thorough=14)),
         ],
@@ -56,8 +58,10 @@ CHECKS = {
         jobs=[
             dict(name="c09s", part="S", pkg=RL, run="TestVerifC09S", mode="instr", shards=dict(quick=6, thorough=16)),
             dict(name="c09race", part="S-Race", pkg=RL, run="TestVerifC09S", mode="instr", race=True, shards=dict(quick=6, thorough=16)),
+            dict(name="c09lin", part="Lin", pkg=RL, run="TestVerifC09Lin", mode="instr", shards=dict(quick=16, thorough=16), timeout=dict(quick=600, thorough=3000)),
+            dict(name="c09linrace", part="Lin-Race", pkg=RL, run="TestVerifC09Lin", mode="instr", race=True, shards=dict(quick=16, thorough=16), timeout=dict(quick=600, thorough=3000)),
             dict(name="c09sys", part="Sys", pkg=LB, run="TestVerifC09Sys", mode="instr", shards=dict(quick=8, thorough=8)),
-            dict(name="c09h", part="H", pkg=RL, run="TestVerifC09H", mode="instr", shards=dict(quick=6, thorough=9)),
+            dict(name="c09h", part="H", pkg=RL, run="TestVerifC09H", mode="instr", shards=dict(quick=9, thorough=14)),
         ],
         assumptions=[],
     ),
